@@ -336,6 +336,7 @@ func C10(ctx *core.Ctx) {
 		c10JSONAnnotations(ctx, cc)
 		c10Regexps(ctx, cc)
 		c10SeenSets(ctx, cc)
+		c10EnumMarker(ctx, cc, "C10.R15")
 	}
 	gs, err := peg.ParseSource(string(src))
 	if err != nil {
@@ -347,6 +348,7 @@ func C10(ctx *core.Ctx) {
 		ctx.LoadError("grammar.peg.go: " + err.Error())
 		return
 	}
+	c10LanguageKept(ctx, gs)
 	ctx.Stat("c10_rules_source", len(gs.Rules))
 	ctx.Stat("c10_rules_compiled", len(gc.Rules))
 	ctx.Configs = append(ctx.Configs, "PEG:grammar.peg+grammar.peg.go")
